@@ -1,12 +1,21 @@
 """C11 - saved histories, design spaces, problems and caches reload identically.
 
-HDFStore.tla (abstract database + file content) and HDFStoreImpl.tla (the file as _hdf_database.py lays
-it out, the append bookkeeping, the pending buffer; refines HDFStore) are model-checked by TLC; the state
-graph of HDFStoreImpl is then walked on a real `Database` with real HDF5 files (transition tour):
-after every export the file is reloaded with `Database.from_hdf` and compared with the specification's
-db (= Decode(file), an invariant TLC checked), the raw h5py layout is compared with the specification's
-`file`, and every walk ends with append-export vs one full export.  Further clauses (design-space files,
-problem files, HDF5 cache reopening) live in c11_aux.
+Specifications (TLC): HDFStore.tla (abstract database + content of the file + problem description flag),
+HDFStoreImpl.tla (the file as _hdf_database.py lays it out: x / k / v / arr_i, the append bookkeeping, the
+pending buffer; refines HDFStore), HDFStoreTrace.tla (validates recorded histories), DesignSpaceFile.tla
+(text and HDF5 layouts of a design space), HDFCacheFile.tla (HDF5 cache reopening).
+
+Binding:
+ * spec -> code: the state graph of HDFStoreImpl is walked on a real `Database` (alone or owned by an
+   `OptimizationProblem`) with real HDF5 files (transition tour; root and nested node): after every export the
+   file is reloaded with `Database.from_hdf` and compared with the specification's db (= Decode(file), an
+   invariant TLC checked) and with the in-memory database, the raw h5py layout is compared with the
+   specification's `file`, the problem description is reloaded with `OptimizationProblem.from_hdf`, and
+   every walk ends with append-export against one full export (c11_replay);
+ * code -> spec: random histories with larger alphabets, exports triggered explicitly or from database
+   listeners, are recorded (layout + reloaded database after every export) and validated by HDFStoreTrace;
+ * enumerations: design spaces (CSV / HDF5) and the cache graph (c11_aux).
+`bin/check C11 --replay <file>` re-runs the history of a tour violation.
 """
 from __future__ import annotations
 
@@ -57,6 +66,26 @@ def cfg(conf, *, props=True, constraint=None):
     return s
 
 
+def check_universe():
+    """HDFStore!Universe is stated to be in the order of Python's sorted(): verify the statement, and that
+    every configured name belongs to it (a wrong constant is a machinery failure, not a finding)."""
+    import re
+
+    from ..core import SPECS
+
+    m = re.search(r"^Universe == <<(.*)>>", (SPECS / "HDFStore.tla").read_text(), re.M)
+    if not m:
+        raise MachineryError("HDFStore!Universe not found")
+    universe = re.findall(r'"([^"]*)"', m.group(1))
+    if universe != sorted(universe) or len(set(universe)) != len(universe):
+        raise MachineryError(f"HDFStore!Universe is not in sorted() order: {universe}")
+    from .c11_aux import TRACE_KINDS
+
+    for names in [c[1] for c in CONFIGS.values()] + [TRACE_KINDS]:
+        if not set(names) <= set(universe):
+            raise MachineryError(f"names outside HDFStore!Universe: {sorted(set(names) - set(universe))}")
+
+
 def taken(r, actions=("Reload", "Update")):
     """Update never *discovers* a state (its successors are also reached by stores that bring nothing
     new) and Reload may not either, depending on the search order: their distinct-state count can be 0
@@ -66,11 +95,14 @@ def taken(r, actions=("Reload", "Update")):
             raise MachineryError(f"vacuity: action {action} never taken")
 
 
-def explore(ck: Check, conf, *, dump):
+def explore(ck: Check, conf, *, dump, light=False):
     """Exhaustive TLC run: every reachable state of the bounded model satisfies the invariants, every
     export step leaves Decode(file) = db = Decode(full export), and HDFStoreImpl refines HDFStore.
-    With dump, the labelled state graph is written for the tour."""
+    With dump, the labelled state graph is written for the tour.  light: the state invariants only (the
+    largest configuration; the step property and the refinement are checked on the others)."""
     with_problem = len(CONFIGS[conf]) > 2
+    if light:
+        return ck.tlc("HDFStoreImpl", cfg(conf, props=False), workers=8, timeout=1700, coverage=False)
     r = ck.tlc("HDFStoreImpl", cfg(conf), workers=8, timeout=1700, dump=dump, require_actions=ACTIONS)
     taken(r, ("Reload", "Update") + (PROBLEM_ACTIONS if with_problem else ()))
     return r
@@ -93,7 +125,7 @@ def tour(ck: Check, conf, *, max_len, io_budget, nproc, rng):
     r = explore(ck, conf, dump=True)
     t1 = time.time()
     with_problem = len(CONFIGS[conf]) > 2
-    g = Graph(ck.work / "HDFStoreImpl.dot")
+    g = rp.canonicalise(Graph(ck.work / "HDFStoreImpl.dot"))
     if len(g.states) != r.distinct:
         raise MachineryError(f"graph dump has {len(g.states)} states, TLC found {r.distinct}")
     t = rp.Tour(g)
@@ -144,6 +176,56 @@ def tour(ck: Check, conf, *, max_len, io_budget, nproc, rng):
     return info
 
 
+def spec_selftest(ck: Check):
+    """Non-vacuity of the invariants: the append bookkeeping without the index offset (ids counted from 0
+    instead of from the number of names already in the file) must be refuted by TLC."""
+    import shutil
+
+    from ..core import SPECS
+
+    d = ck.work / "specmut"
+    d.mkdir(exist_ok=True)
+    shutil.copy(SPECS / "HDFStore.tla", d / "HDFStore.tla")
+    text = (SPECS / "HDFStoreImpl.tla").read_text()
+    good = "ids == [j \\in 1..nIds |-> Len(fe.k) + j - 1]"
+    if good not in text:
+        raise MachineryError("spec self-test: the line to mutate is not in HDFStoreImpl.tla")
+    (d / "HDFStoreImpl.tla").write_text(text.replace(good, "ids == [j \\in 1..nIds |-> j - 1]"))
+    r = ck.tlc("HDFStoreImpl", cfg("A", props=False), workers=4, timeout=600, count=False, coverage=False,
+               expect_ok=False, spec_dir=d)
+    if r.violated not in ("IndexConsistency", "RoundTrip", "PendingCovers", "AppendEqualsFull"):
+        raise MachineryError(f"spec self-test: the mutated append bookkeeping was not refuted ({r.violated})")
+    ck.extra["spec_selftest"] = {"mutation": "missing ids without offset", "refuted_by": r.violated,
+                                 "counterexample_length": len(r.counterexample())}
+
+
+def replay_file(ck: Check, path):
+    """bin/check C11 --replay <file>: re-run the history of a violation written by the tour."""
+    import json
+
+    v = json.loads(open(path).read())
+    d = v["detail"]
+    if "steps" not in d or "config" not in d:
+        print(json.dumps(v, indent=1)[:4000])
+        print("(this violation carries its whole input in the file above; no tour history to re-run)")
+        return
+    conf = d["config"]
+    ck.tlc("HDFStoreImpl", cfg(conf, props=False), workers=8, timeout=1700, dump=True, coverage=False)
+    g = rp.canonicalise(Graph(ck.work / "HDFStoreImpl.dot"))
+    rp.set_graph(g)
+    walk = rp.find_walk(g, d["steps"])
+    node = "" if d.get("node") in (None, "(root)") else d["node"]
+    r = rp.Replayer(g, ck.work, "replay", node, len(CONFIGS[conf]) > 2, variant=d.get("variant", 0))
+    r.run(walk, final=v.get("clause") == "AppendEqualsFull")
+    r.cleanup()
+    print("history:", " ; ".join(d["steps"]), "| node:", node or "(root)")
+    for x in r.viol + r.soft:
+        ck.violation(x["clause"], {"what": x["what"], "ops": x["ops"][-12:], "config": conf,
+                                   "node": "nested" if node else "root"}, dict(x["detail"], steps=d["steps"], config=conf))
+    if not (r.viol or r.soft):
+        print("the history does not violate the specification on this tree")
+
+
 def _js(x):
     return sorted(x) if isinstance(x, (set, frozenset)) else x
 
@@ -151,18 +233,26 @@ def _js(x):
 def run(ck: Check):
     rng = random.Random(ck.seed)
     nproc = 16 if ck.thorough else 8
+    rp.preload()
+    check_universe()
+    import os
+
+    if os.environ.get("VERIF_REPLAY"):
+        replay_file(ck, os.environ["VERIF_REPLAY"])
+        return
     if ck.thorough:
-        plans = [("A", 80, None), ("C", 80, None), ("E", 80, None), ("P", 80, None), ("Q", 100, 40000),
-                 ("B", 120, 60000)]
+        plans = [("A", 80, None), ("C", 80, None), ("E", 80, None), ("P", 80, None), ("Q", 100, 15000),
+                 ("B", 120, 30000)]
         only_tlc = ["D"]
     else:
-        plans = [("A", 60, 4000), ("C", 60, 1500), ("E", 60, 1500), ("P", 60, 1500)]
+        plans = [("A", 60, 2500), ("C", 60, 1000), ("E", 60, 1000), ("P", 60, 1000)]
         only_tlc = []
     abstract_check(ck, "P")
+    spec_selftest(ck)
     for conf, max_len, budget in plans:
         tour(ck, conf, max_len=max_len, io_budget=budget, nproc=nproc, rng=rng)
     for conf in only_tlc:
-        explore(ck, conf, dump=False)
+        explore(ck, conf, dump=False, light=True)
     from . import c11_aux
 
     c11_aux.run(ck, rng)
